@@ -19,7 +19,8 @@ RULE = ("exchanges with a loopback HTTP server that records the raw request: mes
         ' ; plus: sequences of different operations on one client, challenge-response credentials changed between requests, header names / coding labels in other spellings, connections broken in the middle of a body'
         ' ; the same Request sent twice; status mapping with debug logging switched on; empty header values in the headers option'
         ' ; caller values for User-Agent / Accept; error bodies on open(); a peer that never answers the connection attempt'
-        ' ; open() on a refused connection; a proxy named only by the process environment is not used')
+        ' ; open() on a refused connection; a proxy named only by the process environment is not used'
+        ' ; a cookie set for another path; one Request sent again after the credentials changed')
 ASSUMPTIONS = ["urllib / http.client / http.cookiejar / gzip / zlib are runtime (trusted); the loopback server is the "
                "independent observer of what is on the wire"]
 PARTIAL = [{"theorem": "body_fidelity / cookies / failures", "missing": "socket-level behaviour is runtime: checked by the "
